@@ -411,6 +411,8 @@ def array(obj, dtype=None, *a, **k):
     # text -> numbers with tokens standing for symbolic numbers
     if getattr(dtype, '__name__', '') == 'sym_float':
         dtype = float           # a harness shimmed `float` in the calling module
+    if getattr(dtype, '__name__', '') == 'kint':
+        dtype = int             # Tier K shims `int` in amr_kitchen.utils
     if dtype in (float, int, 'float', 'int', 'float64', 'int64'):
         want_int = dtype in (int, 'int', 'int64')
 
@@ -451,6 +453,11 @@ def set_fs(fs):
 
 
 def fromfile(file, dtype=float, count=-1, sep='', offset=0, **k):
+    from . import lv as _lv
+    if isinstance(file, _lv.KHandle):
+        if str(_np.dtype(dtype)) != 'float64' or sep != '':
+            core.cur().flag('symx: fromfile with dtype %s' % dtype)
+        return file.fromfile(count)
     if isinstance(file, BinHandle):
         if str(_np.dtype(dtype)) != 'float64' or sep != '':
             core.cur().flag('symx: fromfile with dtype %s' % dtype)
@@ -540,7 +547,24 @@ def nisnan(a):
     return _np.isnan(_plain(a))
 
 
+def concatenate(seq, *a, **k):
+    from . import lv as _lv
+    seq = list(seq)
+    if any(isinstance(x, (_lv.LV, _lv.Region)) for x in seq):
+        return _lv.concatenate(seq)
+    return as_symnd(_np.concatenate(seq, *a, **k))
+
+
+def hstack(seq, *a, **k):
+    from . import lv as _lv
+    seq = list(seq)
+    if any(isinstance(x, (_lv.LV, _lv.Region)) for x in seq):
+        return _lv.concatenate(seq)
+    return as_symnd(_np.hstack(seq, *a, **k))
+
+
 _OVERRIDES = {
+    'concatenate': concatenate, 'hstack': hstack,
     'fromfile': fromfile, 'save': save, 'savez': savez, 'savez_compressed': savez_compressed,
     'load': load, 'empty': empty, 'empty_like': empty_like, 'zeros': zeros, 'ones': ones,
     'zeros_like': zeros_like, 'ones_like': ones_like, 'min': nmin, 'max': nmax, 'amin': nmin,
